@@ -74,6 +74,9 @@ using namespace Qentem;
 #ifndef HLIST
 #define HLIST 0
 #endif
+#ifndef LIVE
+#define LIVE 2      // live entries of t after the construction steps
+#endif
 #ifndef OBS
 #define OBS 15      // which observer groups run: 1 = j-th visited entry, 2 = every model entry found, 4 = probe key, 8 = any index
 #endif
@@ -304,6 +307,10 @@ static void observe(const T &t, const Model &m, int sorted) {
     }
 }
 
+// capacity a table gets when it is allocated for n items (allocate(): even, then the next power of two)
+static constexpr unsigned cap_for(unsigned n) { return n == 0 ? 0u : (n <= 2 ? 2u : (n <= 4 ? 4u : (n <= 8 ? 8u : 16u))); }
+static constexpr unsigned SZ_T = (K > 0) ? SZ[(K > 0) ? K - 1 : 0] : 0u;   // Size() of t after the construction steps
+
 // tables live in placement buffers and are destroyed explicitly before the reachability witness
 #define TABLE(name, buf, ...) alignas(8) unsigned char buf[sizeof(T)]; T &name = *new (&buf[0]) T(__VA_ARGS__)
 static void fin(T &t) { t.~T(); }
@@ -319,6 +326,7 @@ extern "C" void h_op() {
     build(t, m, PAT, SZ, CP, K);
     int  sorted = 0;
     bool t_gone = false;       // t was moved from: it must be empty with no storage
+    bool post_t = (POST != 0); // the extra insert goes into t (else: into the other table of the operation)
 
 #if OP == OP_NONE
     // nothing
@@ -417,7 +425,7 @@ extern "C" void h_op() {
         t += Memory::Move(u);
         check_empty(u, true);
 #if POST
-        { Model m1; m1.n = 0; MKey k = sym_key(); int v = sym_val(); t_insert(u, k, v); m_put(m1, k, v); observe(u, m1, 0); }
+        { Model m1; m1.n = 0; MKey k = sym_key(); int v = sym_val(); t_insert(u, k, v); m_put(m1, k, v); observe(u, m1, 0); post_t = false; }   // the moved-from table is usable
 #endif
         fin(u);
 #endif
@@ -473,9 +481,10 @@ extern "C" void h_op() {
         TABLE(c, cbuf, t);
         vf_assert(t.Size() == s0 && t.Capacity() == c0, 200);
         vf_assert(c.Size() == c.ActualSize(), 201);
+        pin(c, LIVE, cap_for(SZ_T), true);              // a copy holds the live entries only, in storage sized for the source's slots
         observe(c, m, 0);
 #if POST
-        { MKey k = sym_key(); int v = sym_val(); t_insert(c, k, v); Model mc = m; m_put(mc, k, v); observe(c, mc, 0); }   // the copy is independent
+        { MKey k = sym_key(); int v = sym_val(); t_insert(c, k, v); Model mc = m; m_put(mc, k, v); observe(c, mc, 0); post_t = false; }   // the copy is independent
 #endif
         fin(c);
     }
@@ -501,6 +510,7 @@ extern "C" void h_op() {
         const unsigned s0 = t.Size(), c0 = t.Capacity();
         u = t;
         vf_assert(t.Size() == s0 && t.Capacity() == c0, 220);
+        pin(u, LIVE, cap_for(SZ_T), true);
         observe(u, m, 0);
         fin(u);
 #else
@@ -517,9 +527,7 @@ extern "C" void h_op() {
 #endif
 
     if (t_gone) check_empty(t, true);
-#if POST
-    { MKey k = sym_key(); int v = sym_val(); t_insert(t, k, v); m_put(m, k, v); if (sorted != 0) sorted = 2; }
-#endif
+    if (post_t) { MKey k = sym_key(); int v = sym_val(); t_insert(t, k, v); m_put(m, k, v); if (sorted != 0) sorted = 2; }
     if (sorted != 2) observe(t, m, sorted);
     else {                                              // sorted, then one insert: appended (or updated in place)
         // lookups only: order after a post-sort insert is "sorted prefix + appended entry"
